@@ -229,13 +229,13 @@ def oracle(run, cfg):
                     bad.append(("nb-empty", f"receiver {list(k)} op {i} reported empty although {avail} messages "
                                             f"had been sent and only {nrecv} received before it started"))
         # blocked although it could proceed
-        if run.status[r] == "blocked":
+        if run.status[r] == "blocked" and run.end_reason == "quiescent":
             i = res[r][-1][0]
             kind = cfg[r]["ops"][i][0]
             if kind == "recv" and left:
                 bad.append(("blocked", f"thread {r} blocked in recv with {left} queued"))
     for t, th in enumerate(cfg):
-        if run.status[t] == "blocked":
+        if run.status[t] == "blocked" and run.end_reason == "quiescent":
             i = res[t][-1][0]
             if th["ops"][i][0] == "connect" and tuple(rkey(th["key"])) in final_open:
                 bad.append(("blocked", f"thread {t} blocked in connect although the peer is open"))
